@@ -184,10 +184,15 @@ def names(cfg, crate, ctx, rep):
             for a in F.atoms(c):
                 if a not in ats:
                     ats.append(a)
-        if any(a[0] != "variant" or a[1] != pl for a in ats):
+        # "the name passed validation" (a match on the result of the checked conversion of this element) is not a
+        # classification criterion: the table is read on the paths where it succeeded, its failure must be propagated
+        val_atoms = [a for a in ats if a[0] == "variant" and a[1] != pl and a[2] == "Ok" and ("try_from" in a[1] or "try_into" in a[1]) and a[1].endswith("(%s)" % elem)]
+        if any((a[0] != "variant" or a[1] != pl) and a not in val_atoms for a in ats):
             return {"error": "classification depends on something other than the IP parse: %s" % [F.show_atom(a)[-80:] for a in ats if a[0] != "variant" or a[1] != pl]}
         res = {"element": elem.split(".")[-1] if "." in elem else elem, "parsed_as": "IpAddr"}
         for asg in F.assignments(ats + [x for x in [("variant", pl, "Ok"), ("variant", pl, "Err")] if x not in ats]):
+            if any(not asg.get(a) for a in val_atoms):
+                continue
             hit = [x for c, x in flat if F.evalf(c, asg)]
             which = "Ok" if asg[("variant", pl, "Ok")] else "Err"
             if len(hit) != 1 or not isinstance(hit[0], StructV):
@@ -199,6 +204,23 @@ def names(cfg, crate, ctx, rep):
                 src_txt = "parsed address"
             elif ptxt in (elem, elem + "?") and (id(h) in via_map or any(r.startswith("via:") and ("try_into" in r or "try_from" in r) for r in roots(payload))):
                 propagated = any(core(tv).r() == elem and "try_" in tv.r() for tv, tn, tf, tc in I.tries) or id(h) in via_map
+                src_txt = "validated name" + (" (error propagated)" if propagated else " (error NOT propagated)")
+            elif ptxt.endswith("(%s)#Ok.0" % elem) and ("try_from" in ptxt or "try_into" in ptxt):
+                # the success payload of a checked conversion of this element, taken apart by a `match`: its failure must
+                # leave the function with an error on these paths
+                place_ = ptxt[:-len("#Ok.0")]
+                def _asg(c):
+                    out_ = {}
+                    for b in F.atoms(c):
+                        if b[0] == "variant" and b[1] == pl:
+                            out_[b] = (b[2] == which)
+                        elif b[0] == "variant" and b[1] == place_:
+                            out_[b] = (b[2] == "Err")
+                        else:
+                            out_[b] = b[0] == "opaque" and str(b[1]).startswith("in-loop@")
+                    return out_
+                propagated = any(any(b[0] == "variant" and b[1] == place_ for b in F.atoms(c)) and isinstance(core(x), StructV) and core(x).variant == "Err" and F.evalf(c, _asg(c))
+                                 for c, x, nn, ff in I.fails)
                 src_txt = "validated name" + (" (error propagated)" if propagated else " (error NOT propagated)")
             else:
                 src_txt = ptxt[-60:]
